@@ -17,13 +17,14 @@ ENGINES = {
  "know": ("harness/src/invite.rs + vlib/knoweng.py + vlib/check_C03.py + lean/Driver/KnowDrv.lean", "observers fed every event ever published; knowledge model replay"),
  "appmsg": ("harness/src/appmsg.rs (on harness/src/world.rs) + vlib/appmsgeng.py + vlib/check_C04.py + lean/Driver/AppMsgDrv.lean", "adversarial application messages crafted with OpenMLS directly (chosen pubkey/id/timestamp/kind/tags, cross-group wraps, replays, stale ex-member) delivered to a real MDK receiver on memory and SQLite; replayed on Model.AppMsg; oracle over the stored rows"),
  "mediaw": ("harness/src/codec.rs (media ops) + harness/src/mediaw.rs (on harness/src/world.rs) + vlib/mediaeng.py + vlib/check_C17.py + lean/Driver/MediaDrv.lean", "HKDF context / AAD correspondence over the real key derivation, and media histories on real MDK instances (encrypt, announce, commits, decrypt at members/non-members, tampers, group images) replayed on Model.MediaEpoch"),
+ "ffi": ("harness/src/ffi.rs + vlib/ffieng.py + vlib/check_C06.py + lean/Driver/FfiDrv.lean + lean/MdkVerif/Model/Ffi.lean", "every #[uniffi::export] function of crates/mdk-uniffi called on real binding objects (sessions set up through the binding API) with every hostile class of every string / list / number / byte-vector argument under catch_unwind; parse-level outcome diffed against Model.Ffi; independent hex judge; no-panic / no-poisoned-mutex oracle"),
  "media": ("harness/src/codec.rs (media ops) + harness/src/world.rs + vlib/mediaeng.py", "HKDF context / AAD correspondence and epoch-hint histories"),
 }
 def main():
     claims = json.load(open(os.path.join(V, "tools", "claims.json")))
     engines = [{"name": "lean-model", "path": "lean/", "serves_properties": sorted(claims), "kind_free_text": "Lean 4 executable model, helper lemmas, property theorems (MdkVerif.Props.*), compiled driver mdkdrv"}]
     for name, (path, text) in ENGINES.items():
-        served = sorted(p for p, c in claims.items() if c["engine"] == name and p not in HOLD)
+        served = sorted(p for p, c in claims.items() if name in c["engine"].split("+") and p not in HOLD)
         if served:
             engines.append({"name": name, "path": path, "serves_properties": served, "kind_free_text": text})
     engines.append({"name": "translator", "path": "tools/gen_model.py", "serves_properties": sorted(claims), "kind_free_text": "regenerates lean/MdkVerif/Generated*.lean from /repo on every run"})
